@@ -1,11 +1,11 @@
 #!/bin/bash
-# round 3: seeded/C##-r3-k (or /tmp/seedout3-C##/k before confirmation) through the owning property's quick check.
+# round R (default 3): seeded/C##-rR-k (or /tmp/seedoutR-C##/k before confirmation) through the owning quick check.
 # usage: OUT=<file> tools/seed_matrix3.sh [C07 ...]
-cd /verif
+cd /verif; R=${R:-3}
 out=${OUT:-/tmp/seed3_matrix.txt}
 for p in ${*:-C01 C02 C03 C04 C05 C06 C07 C08 C09 C10 C11 C12 C13 C14 C15 C16 C17 C18 C19 C20}; do for k in 1 2 3; do
-  d=/verif/seeded/$p-r3-$k; [ -f $d/patch.diff ] || d=/tmp/seedout3-$p/$k; [ -f $d/patch.diff ] || continue
-  grep -q "^$p-r3-$k |" $out 2>/dev/null && continue
+  d=/verif/seeded/$p-r$R-$k; [ -f $d/patch.diff ] || d=/tmp/seedout$R-$p/$k; [ -f $d/patch.diff ] || continue
+  grep -q "^$p-r$R-$k |" $out 2>/dev/null && continue
   r=$(tools/mutant.sh $p $d/patch.diff 2>&1 | grep -v "KNOWN-FINDING\|formats exercised\|^C19:" | head -2 | tr '\n' ' ' | cut -c1-240)
-  echo "$p-r3-$k | $r" >> $out
+  echo "$p-r$R-$k | $r" >> $out
 done; done
